@@ -204,3 +204,7 @@ _add("C20", "note", "Further jobs: synthetic ordering rulebooks whose sibling ru
 _add("C07", "text", "Every other pattern reaches the four rulebook compilers spelled with tabs / several blanks between its words.")
 _add("C04", "text", "RouterOS trees hold twin neighbour sections; IOS-XR trees hold QoS blocks ending in end-policy-map / end-class-map rows.")
 _add("C15", "note", "Handler values are constants or derived from the {n} of the device's own matched name.", replace="Handlers are constant tables.")
+_add("C02", "technique", "; composed pipeline model (Annet.tla: A-layers of apply_acl, make_diff+apply_acl_diff, make_patch, cmd_paths on the P-layer device) model-checked over ACL families (MC_Pipeline)")
+_add("C02", "text", "MC_Pipeline: for every ACL of a catalogue rulebook's family (sub-forests of its rule tree, rules deletable or protected) x every device configuration x every ACL-confined generator output, the "
+     "transcribed pipeline's commands executed on the device satisfy (a)(b)(c) and the covered part converges; the pipeline without apply_acl_diff's cant_delete branch and the catalogue entry holding the recorded "
+     "%ordered-block finding must violate Safe (anti-vacuity).")
